@@ -84,13 +84,6 @@ Proof.
 Qed.
 
 (* ---------------------------------------------------------------- Electrum v1 *)
-Lemma fixed32 v : v < secp256k1_order -> exists b, int_to_be_fixed 32 v = Ok b /\ length b = 32%nat /\
-  bytes_ok b /\ be_to_int b = v.
-Proof.
-  intros H. destruct (int_to_be_fixed_fits 32 v) as [b E].
-  { pose proof c_order_lt. change (N.of_nat 32) with 32. lia. }
-  exists b. apply int_to_be_fixed_ok in E as H'. tauto.
-Qed.
 
 Section V1.
   Set Default Proof Using "Type".
